@@ -1,0 +1,6 @@
+//go:build !verif
+
+package object
+
+// VerifPoint is a no-op without the verif build tag.
+func VerifPoint(string, int) error { return nil }
